@@ -121,6 +121,14 @@ class CaseCtx:
         except TypeError:
             return a == b
 
+    def close(self, a, b, scale, rel=1e-12):
+        """|a - b| <= rel * scale : for specs whose code constant is a rounded float literal (e.g. 4.0/3.0)."""
+        if self.mode == "symbolic" or _has_z3(a) or _has_z3(b) or _has_z3(scale):
+            a, b, sc = _z(a), _z(b), _z(scale)
+            r = real_val(rel)
+            return z3.And(a - b <= r * sc, b - a <= r * sc)
+        return abs(a - b) <= max(rel, self.tol) * max(abs(scale), 1e-300)
+
     def le(self, a, b):
         if self.mode == "symbolic" or _has_z3(a) or _has_z3(b):
             return _z(a) <= _z(b)
